@@ -45,10 +45,17 @@ def obs (s : St) (nkeys : Nat) : List (String × String) :=
 def runEvs (nkeys : Nat) : St → List (Nat × Fields) → Nat → String
   | _, [], n => s!"ACCEPT ops={n}"
   | s, (ln, f) :: rest, n =>
-    match parseEv f with
+    -- `callabort`: a call whose leader task is cancelled before its first poll = call ; abort, except that
+    -- the task's lookup / fetch never started
+    let stepped : Option St :=
+      if getD f "ev" "" = "callabort" then
+        let s1 := step s (.call (getNatD f "c" 0) (getNatD f "k" 0) (getD f "disk" "0" = "1") (getD f "fetch" "0" = "1"))
+        let s2 := step s1 .abort
+        some { s2 with started := s.started, dstarted := s.dstarted }
+      else (parseEv f).map (step s)
+    match stepped with
     | none => s!"REJECT line={ln} step={n} field=ev model=? impl={getD f "ev" ""}"
-    | some e =>
-      let s' := step s e
+    | some s' =>
       let mm := (obs s' nkeys).find? fun (name, v) =>
         match get? f name with
         | some w => w ≠ v
@@ -103,11 +110,11 @@ def monitor (evs : List (Nat × Fields)) : String :=
       let c := getNatD f "c" 0
       let k := getNatD f "k" 0
       let ev := getD f "ev" ""
-      let keyOf' := if ev = "call" then (c, k) :: keyOf else keyOf
+      let keyOf' := if ev = "call" || ev = "callabort" then (c, k) :: keyOf else keyOf
       let newStarted := started.filter fun x => !prevStarted.contains x
       -- bookkeeping of running fetches
       let running0 := if ev = "origin" then running.filter (·.1 ≠ c) else running
-      let running0 := if ev = "abort" then [] else running0
+      let running0 := if ev = "abort" || ev = "callabort" then [] else running0
       -- an explicit insert supersedes (closes) the fetch in flight for that key
       let running0 := if ev = "insert" then running0.filter (·.2 ≠ k) else running0
       let keyOfFetch (x : Nat) : Nat := ((keyOf'.find? (·.1 = x)).map (·.2)).getD 0
@@ -131,12 +138,12 @@ def monitor (evs : List (Nat × Fields)) : String :=
         ev = "origin" && getD f "r" "" = "err" &&
           (let kk := keyOfFetch c
            ((cache.find? (·.1 = kk)).map (·.2)) ≠ ((prevCache.find? (·.1 = kk)).map (·.2)))
-      let hang := getD f "final" "0" = "1" && callers.any fun (_, st) => st = "p"
+      let hang := (getD f "final" "0" = "1" || ev = "abort" || ev = "callabort") && callers.any fun (_, st) => st = "p"
       match clash, overwritten, unanswered, hang with
       | some x, _, _, _ => s!"FAILS prop=C06 clause=one_fetch_at_a_time line={ln} step={n} detail=fetch_{x}_started_while_another_fetch_of_its_key_is_running"
       | _, some (pk, pv), _, _ => s!"FAILS prop=C11 clause=insert_not_overwritten line={ln} step={n} detail=key_{pk}_inserted_v{pv}_but_cache_shows_another_value"
       | _, _, some cid, _ => s!"FAILS prop=C11 clause=insert_answers_waiters line={ln} step={n} detail=caller_{cid}_was_waiting_and_did_not_receive_the_inserted_value"
-      | _, _, _, true => s!"FAILS prop=C06 clause=every_caller_answered line={ln} step={n} detail=a_caller_is_still_pending_after_all_futures_were_resolved_or_dropped"
+      | _, _, _, true => s!"FAILS prop=C06 clause=every_caller_answered line={ln} step={n} detail=a_caller_is_still_pending_after_all_fetch_tasks_were_cancelled_or_all_futures_resolved"
       | none, none, none, false =>
         if failedCached then s!"FAILS prop=C06 clause=failed_fetch_caches_nothing line={ln} step={n} detail=-"
         else go pinned' running' keyOf' callers started cache rest (n + 1)
